@@ -280,6 +280,7 @@ fn mk(name: &str, wcfg: usize, env: Option<&str>, wexp: usize, script: Vec<Read>
         preemption_bound: pb,
         fill_at_end: true,
         empty_fill_first: false,
+        short_at: None,
         process_cap: 0,
     }
 }
@@ -323,6 +324,12 @@ fn c05_scenarios(thorough: bool) -> Vec<Scenario> {
     for (w, f, byte) in [(1usize, 2usize, false), (2, 2, false), (2, 2, true)] {
         let mut s = mk(&format!("emptyfill_w{w}_f{f}_{}", if byte { "bytes" } else { "ints" }), w, None, w, data(f), 5, byte, pb);
         s.empty_fill_first = true;
+        v.push(s);
+    }
+    // a read shorter than the block size in the middle of the input (a packet source): more reads follow
+    for (w, f, at, len) in [(1usize, 3usize, 1usize, 9usize), (2, 3, 0, 65), (2, 3, 1, 9)] {
+        let mut s = mk(&format!("shortread@{at}_len{len}_w{w}_f{f}"), w, None, w, data(f), len, false, pb);
+        s.short_at = Some(at);
         v.push(s);
     }
     // hashing queue shrunk to one / two slots (the code's 16 is a tuning constant): the feeder blocks on it
@@ -434,6 +441,12 @@ fn c06_scenarios(thorough: bool) -> Vec<Scenario> {
         for f in 0..=3usize {
             v.push(mk(&format!("w{w}_f{f}_faultfree"), w, None, w, data(f), 0, false, 2));
         }
+    }
+    // a short read in the middle of the input, then a fault
+    for (name, script) in fault_scripts(3).into_iter().filter(|(n, _)| n == "readerr@2" || n == "readerr@3" || n == "badsample@2" || n == "badsample@0+readerr@2") {
+        let mut s = mk(&format!("shortread@1_w2_f3_{name}"), 2, None, 2, script, 9, false, 2);
+        s.short_at = Some(1);
+        v.push(s);
     }
     // a source that issues an empty fill before every block: terminates with every frame, and the
     // faults are reported as in single-thread mode
